@@ -16,7 +16,9 @@ RULE = (
     "predicted through the public predict() over a [-60,140]F sweep (0.5F steps) plus every recorded and "
     "smoothing-shifted balance point, its two float neighbours and +-1e-6. Non-trivial: the shape has at least one "
     "slope and the sweep has points in every regime of the shape (below the heating point, between, above the cooling "
-    "point). Distinct = distinct documents."
+    "point). One shard loads CalTRACK 2.0 parameter documents (hdd_only / cdd_only / cdd_hdd / intercept_only) one to four times "
+    "from the same dict (or from JSON) and compares predicted / heating_load / cooling_load with the document's own lines. "
+    "Distinct = distinct documents."
 )
 ASSUMPTIONS = [
     "admissible region: balance points strictly inside the recorded temperature limits, declared slopes non-zero (as C12 states)",
@@ -33,6 +35,56 @@ def cases(draw):
     return c
 
 
+@st.composite
+def v2_cases(draw):
+    """CalTRACK 2.0 parameter documents (the other way coefficients reach the curve): loaded several times from one dict."""
+    mt = draw(st.sampled_from(["hdd_only", "cdd_only", "cdd_hdd", "intercept_only"]))
+    p = {"intercept": draw(st.floats(0.5, 80))}
+    hb = draw(st.floats(30, 65))
+    if mt in ("hdd_only", "cdd_hdd"):
+        p["beta_hdd"] = draw(st.floats(0.01, 5))
+        p["heating_balance_point"] = hb
+    if mt in ("cdd_only", "cdd_hdd"):
+        p["beta_cdd"] = draw(st.floats(0.01, 5))
+        p["cooling_balance_point"] = hb + draw(st.floats(0, 25)) if mt == "cdd_hdd" else draw(st.floats(55, 85))
+    return {"kind": "v2", "doc": {"model_type": mt, "model_params": p}, "loads": draw(st.integers(1, 4)), "via": draw(st.sampled_from(["dict", "dict", "json"]))}
+
+
+def judge_v2(case, rec):
+    import copy
+    import json
+
+    from opendsm import eemeter as em
+
+    doc = copy.deepcopy(case["doc"])
+    before = copy.deepcopy(doc)
+    p = doc["model_params"]
+    T = np.arange(-60.0, 140.5, 0.5)
+    idx = pd.date_range("2019-01-01", periods=len(T), freq="D", tz="UTC")
+    rep = em.DailyReportingData(pd.DataFrame({"temperature": T}, index=idx), is_electricity_data=True)
+    heat = p.get("beta_hdd", 0.0) * np.clip(p.get("heating_balance_point", 0.0) - T, 0, None) if "beta_hdd" in p else np.zeros_like(T)
+    cool = p.get("beta_cdd", 0.0) * np.clip(T - p.get("cooling_balance_point", 0.0), 0, None) if "beta_cdd" in p else np.zeros_like(T)
+    want = p["intercept"] + heat + cool
+    K = "v2/" + doc["model_type"]
+    for k in range(case["loads"]):
+        m = em.DailyModel.from_2_0_dict(doc) if case["via"] == "dict" else em.DailyModel.from_2_0_json(json.dumps(doc))
+        out = m.predict(rep)
+        f = out["predicted"].values.astype(float)
+        scale = 1 + float(np.max(np.abs(want)))
+        for name, got, ref in (("predicted", f, want), ("heating_load", out["heating_load"].values.astype(float), heat),
+                               ("cooling_load", out["cooling_load"].values.astype(float), cool)):
+            bad = np.nonzero(~(np.abs(got - ref) <= 1e-9 * scale))[0]
+            if len(bad):
+                i = int(bad[0])
+                rec.violation("%s/%s%s" % (K, name, "/repeated-load" if k else ""), case, "load #%d: %s at T=%r is %r, the document's line gives %r" % (
+                    k + 1, name, float(T[i]), float(got[i]), float(ref[i])))
+                break
+        if doc != before:
+            rec.violation(K + "/document-modified", case, "from_2_0_dict changed the caller's dict: %r -> %r" % (before["model_params"], doc["model_params"]))
+            break
+    rec.case(case, doc["model_type"] != "intercept_only", ["shape=v2:" + doc["model_type"], "loads=%d" % case["loads"]])
+
+
 def predict_sweep(case, T):
     from opendsm import eemeter as em
 
@@ -44,6 +96,8 @@ def predict_sweep(case, T):
 
 
 def judge(case, rec):
+    if case.get("kind") == "v2":
+        return judge_v2(case, rec)
     name = next(iter(case["submodels"]))
     sm = case["submodels"][name]
     c, tc = sm["coefficients"], sm["temperature_constraints"]
@@ -171,11 +225,11 @@ def judge(case, rec):
 
 def shards(tier, seed):
     per = 250 if tier == "quick" else 4000
-    return [{"i": i, "n": per, "seed": mix(seed, ID, i)} for i in range(16)]
+    return [{"i": i, "n": per, "seed": mix(seed, ID, i)} for i in range(15)] + [{"i": 15, "n": 200 if tier == "quick" else 3000, "seed": mix(seed, ID, "v2"), "v2": True}]
 
 
 def run_shard(spec, rec):
-    explore(cases(), judge, rec, max_examples=spec["n"], seed=spec["seed"], shrink=True)
+    explore(v2_cases() if spec.get("v2") else cases(), judge, rec, max_examples=spec["n"], seed=spec["seed"], shrink=True)
 
 
 def replay(case, rec):
